@@ -1196,6 +1196,37 @@ HARNESSES += [
 ]
 
 
+# the same header decoded again while another thread is between two looks at
+# whatever the library remembers about the last one (A-B-A)
+HARNESSES += [
+    ('decode Ack ch 1 || decode Ack ch 2 ; decode Ack ch 1', [
+        _call('unmarshal Basic.Ack ch 1',
+              lambda p: _view(p.frame.unmarshal(ACK))),
+        _seq(_call('unmarshal Basic.Ack ch 2',
+                   lambda p: _view(p.frame.unmarshal(ACK2))),
+             _call('unmarshal Basic.Ack ch 1',
+                   lambda p: _view(p.frame.unmarshal(ACK))))], 2, 3),
+    ('decode Ack ch 1 || decode Ack ch 2 || decode Ack ch 1 (3 threads)', [
+        _call('unmarshal Basic.Ack ch 1',
+              lambda p: _view(p.frame.unmarshal(ACK))),
+        _call('unmarshal Basic.Ack ch 2',
+              lambda p: _view(p.frame.unmarshal(ACK2))),
+        _call('unmarshal Basic.Ack ch 1 again',
+              lambda p: _view(p.frame.unmarshal(ACK)))], 2, 2),
+    ('peek ch 1 ; decode || peek ch 2 ; decode ; peek ch 1', [
+        _seq(_call('frame_parts(ACK)',
+                   lambda p: list(p.frame.frame_parts(ACK))),
+             _call('unmarshal Basic.Ack ch 1',
+                   lambda p: _view(p.frame.unmarshal(ACK)))),
+        _seq(_call('frame_parts(ACK2)',
+                   lambda p: list(p.frame.frame_parts(ACK2))),
+             _call('unmarshal Basic.Ack ch 2',
+                   lambda p: _view(p.frame.unmarshal(ACK2))),
+             _call('frame_parts(ACK)',
+                   lambda p: list(p.frame.frame_parts(ACK))))], 2, 3),
+]
+
+
 def reset_switch():
     lib.pamqp().encode.support_deprecated_rabbitmq(False)
 
